@@ -21,7 +21,8 @@
    10 a Jordan-style theorem: points reachable from the kernel point of a star-shaped ring have an
       odd crossing number, so 7 and 8 are also stated over geometric containment (10b);
    11 addToMultiPolygon on arbitrary (malformed) input: what is kept and what is dropped.
-   12 reflection lemmas between the oracle vocabulary of the case checker and the theorems'.
+   12 reflection lemmas between the oracle vocabulary of the case checker and the theorems';
+   13 rotation of a ring is without loss of generality (ring lines, hypotheses, ray casting).
    SCOPE of 7 / 8 (holes_assigned, build_polygon_recovers): the property text says "each inner
    strictly inside one outer, outers non-nested and disjoint".  The theorems formalise this as
    [contained]: by the even-odd rule (crossing parity, exact rationals: 7c) some vertex of each
@@ -38,7 +39,7 @@
    Way.Updates are not modelled here (C15); the Member.Nodes fallback of buildPolygon is modelled
    but excluded from the recovery theorems (members resolve through the way table). *)
 From Coq Require Import ZArith List Bool Permutation Lia.
-From Verif Require Import Geo.Model Geo.JoinProofs Geo.Conserve Geo.Closes Geo.Cut Geo.Orient Geo.Sources Geo.Holes Geo.Annotate Geo.Edges Geo.Rings Geo.GroupIdx Geo.Recover Geo.Contain Geo.Assign Geo.Truthful Geo.Build Geo.Collect Geo.Jordan Geo.BuildGeo Geo.Invalid Geo.AnnotateMembers C16.Spec C16.Reflect C16.RayQ Geo.Tables C16.GenOk.
+From Verif Require Import Geo.Model Geo.JoinProofs Geo.Conserve Geo.Closes Geo.Cut Geo.Orient Geo.Sources Geo.Holes Geo.Annotate Geo.Edges Geo.Rings Geo.GroupIdx Geo.Recover Geo.Contain Geo.Assign Geo.Truthful Geo.Build Geo.Collect Geo.Jordan Geo.BuildGeo Geo.Invalid Geo.AnnotateMembers Geo.Rotate C16.Spec C16.Reflect C16.RayQ Geo.Tables C16.GenOk.
 From VerifGen Require Import GenMputil.
 Import ListNotations.
 Open Scope Z_scope.
@@ -492,6 +493,26 @@ Theorem C16_piece_orientation_runs : forall (r : line) p,
   runs r (piece_orientation r p) (piece_line r p).
 Proof. exact piece_orientation_runs. Qed.
 Print Assumptions C16_piece_orientation_runs.
+
+(* 13. "rings written from one of their cut vertices" (3b, 5, 7, 8) is without loss of generality:
+       a ring line of the rotated ring is a ring line of the ring and conversely, and the
+       hypotheses are invariant under rotation - distinct vertices, signed area, and the verdict
+       of ray casting against the ring (hence [contained]). *)
+Theorem C16_ring_line_of_rotated : forall k (r L : line), (k < length r)%nat ->
+  is_ring_line (Rings.rot k r) L -> is_ring_line r L.
+Proof. exact is_ring_line_of_rot. Qed.
+Theorem C16_ring_line_rotated : forall k (r L : line), (k < length r)%nat ->
+  is_ring_line r L -> is_ring_line (Rings.rot k r) L.
+Proof. exact is_ring_line_rot. Qed.
+Theorem C16_nodup_rotated : forall k (r : line), NoDup r -> NoDup (Rings.rot k r).
+Proof. exact nodup_rot. Qed.
+Theorem C16_area_rotated : forall k (r : line), (k < length r)%nat ->
+  Orient.shoelace (Rings.close_ring (Rings.rot k r)) = Orient.shoelace (Rings.close_ring r).
+Proof. exact area_rot. Qed.
+Theorem C16_ray_casting_rotated : forall k (o : line) p, (k < length o)%nat ->
+  point_in_ring (Rings.close_ring (Rings.rot k o)) p = point_in_ring (Rings.close_ring o) p.
+Proof. exact point_in_ring_rot. Qed.
+Print Assumptions C16_ring_line_of_rotated.
 
 (* 9. tie by translation.  gen/GenMputil.v is regenerated from /repo's Go source on every run by
       translator/cmd/mputil (go/ast): Join's if / else-if chain as a table, the first-half test of
